@@ -21,20 +21,45 @@ def errJ : Option SortErr → Json
   | none => Json.str "ok"
   | some (.conflict _ _) => Json.str "conflict"
   | some .fuel => Json.str "fuel"
+  | some .cycle => Json.str "cycle"
+
+/-- how many calls of a history separate the depth guard from the unguarded recursion: the unguarded model
+    (stack depth `sortFuel n`) terminates although it recurses deeper than the guard's bound `2n+2`.
+    Returns (number of such calls, number of them on which the unguarded call returns no error). -/
+def guardGap (r : CbRepairs) (p0 : Proc) (ops : List RegOp) : Nat × Nat :=
+  let r0 : CbRepairs := { r with depthGuard := false }
+  let r1 : CbRepairs := { r with depthGuard := true }
+  (ops.foldl (fun (acc : Proc × Nat × Nat) op =>
+    let (p, a, b) := acc
+    let (p0', e0) := p.applyR r0 op
+    let (_, e1) := p.applyR r1 op
+    let gap := e1 == some .cycle && e0 != some .fuel
+    (p0', a + (if gap then 1 else 0), b + (if gap && e0 == none then 1 else 0))) (p0, 0, 0)).2
 
 /-- ["cb.run", [regops for the initial (built-in) registrations], [regops]] ->
-    {"errs":[...per op of the second list...], "fns":[hid...], "names":[final callback names]} -/
+    {"errs":[...per op of the second list...], "fns":[hid...], "names":[final callback names],
+     "gap":[calls where the guard and the terminating unguarded recursion differ, those without error]}
+    run on the model of the tree under check (`treeRepairs`: regenerated repair flags);
+    ["cb.flags"] -> the flags -/
 def handleC17 (op : String) (args : Array Json) : Option Json := do
   match op with
   | "cb.run" =>
     let init ← (← jArr? (arg args 1)).toList.mapM parseRegOp
     let ops ← (← jArr? (arg args 2)).toList.mapM parseRegOp
-    let (p0, _) := Proc.run {} init
-    let (p, errs) := Proc.run p0 ops
+    let (p0, _) := Proc.runR treeRepairs {} init
+    let (p, errs) := Proc.runR treeRepairs p0 ops
+    -- only meaningful (and only computed) when the tree has the depth guard
+    let gap := if treeRepairs.depthGuard then guardGap treeRepairs p0 ops else (0, 0)
     some (Json.mkObj [
       ("errs", Json.arr (errs.map errJ).toArray),
       ("fns", natListJ p.fns),
-      ("names", strListJ (p.callbacks.map (·.name)))])
+      ("names", strListJ (p.callbacks.map (·.name))),
+      ("gap", natListJ [gap.1, gap.2])])
+  | "cb.flags" =>
+    some (Json.mkObj [
+      ("depthGuard", Json.bool treeRepairs.depthGuard),
+      ("sortCopies", Json.bool treeRepairs.sortCopies),
+      ("starOrder", Json.bool treeRepairs.starOrder)])
   | _ => none
 
 end Gorm.Drv
